@@ -63,6 +63,14 @@ void splinetable<Alloc>::fit(const ::ndsparse& data,
 			                       +std::to_string(coords[i].size())
 			                       +" entries, fewer than the range of coordinate indices ("
 			                       +std::to_string(data.ranges[i])+")");
+		//(comparisons with NaN are all false, so a NaN would hide an
+		//out-of-order knot from the test for sortedness)
+		for(double knot : knots[i]){
+			if(!std::isfinite(knot))
+				throw std::logic_error("Knot vector for dimension "
+				                       +std::to_string(i)+
+				                       " contains a value which is not finite");
+		}
 		if(!std::is_sorted(knots[i].begin(),knots[i].end()))
 			throw std::logic_error("Knot vector for dimension "
 			                       +std::to_string(i)+
